@@ -324,7 +324,11 @@ def run(ctx: core.Check):
                 "integers, degenerate, constant, mixed runs); per box: alpha levels from {0, 1, grid points, grid midpoints, "
                 "random, outside [0.001,0.999]} scalar and array; x inside/outside the support, on bound values and between "
                 "them, scalar and array; discretise(None|200|n); outer_discretisation(None|m); condensation(m), m in 2..200; "
-                "get_PI for 3 coverage levels x 2 styles. Non-trivial = the box is not constant; distinctness on (box, query).")
+                "get_PI for 3 coverage levels x 2 styles. Also boxes with thin (1e-9..1e-5 relative), tiny (down to 1e-23) and "
+                "extreme (1e15..1e18) bounds, boxes built from int-dtype arrays / python lists; levels and x given as int / "
+                "np.int64 / bool; after the queries of a box its bounds must be unchanged and its first query is asked again; the "
+                "real result objects of the last 120 queries are kept alive and re-read. "
+                "Non-trivial = the box is not constant; distinctness on (box, query).")
     ctx.assumptions = ["binary64 rounding inside find_nearest (|p - a|) and in (1-alpha)/2 is not modelled: a level whose two nearest "
                        "grid distances differ by less than 2^-50 is accepted either way",
                        "levels np.linspace(0.001, 0.999, n) are supplied to the model by the harness (numpy table)"]
